@@ -109,9 +109,11 @@ type runner struct {
 		queries, sat, unsat, unk int
 		time                     time.Duration
 	}
-	testBins map[string]string
-	binMu    sync.Mutex
-	verbose  bool
+	testBins    map[string]string
+	deadline    time.Time
+	deadlineHit bool
+	binMu       sync.Mutex
+	verbose     bool
 }
 
 func main() {
@@ -176,7 +178,17 @@ func newRunner(tierName string, verbose bool) (*runner, error) {
 		}
 	}
 	r.cfg = interp.Config{StepCap: 3_000_000, DepthCap: 400, ActiveKnown: r.active, Tier: r.tier}
-	r.pathCap = 200_000
+	r.pathCap = 400_000
+	budget := 20 * time.Minute
+	if r.tier == 1 {
+		budget = 150 * time.Minute
+	}
+	if s := os.Getenv("VERIF_BUDGET_MIN"); s != "" {
+		if n, err := strconv.Atoi(s); err == nil && n > 0 {
+			budget = time.Duration(n) * time.Minute
+		}
+	}
+	r.deadline = time.Now().Add(budget)
 	r.workers = 16
 	if s := os.Getenv("VERIF_WORKERS"); s != "" {
 		if n, err := strconv.Atoi(s); err == nil && n > 0 {
@@ -293,6 +305,10 @@ func (r *runner) explore(hs []*harnessRun) {
 				skip := h.paths >= r.pathCap
 				if skip {
 					h.budgetHit = true
+				}
+				if time.Now().After(r.deadline) {
+					skip = true
+					r.deadlineHit = true
 				}
 				want := !h.haveWitness
 				h.mu.Unlock()
